@@ -145,7 +145,10 @@ class SyncedList(SyncedCollection, MutableSequence):
                 for i in range(min(len(self), len(data))):
                     if data[i] == self._data[i]:
                         continue
-                    if _sc_resolver.get_type(self._data[i]) == "SYNCEDCOLLECTION":
+                    if (
+                        _sc_resolver.get_type(self._data[i]) == "SYNCEDCOLLECTION"
+                        and data[i] is not None
+                    ):
                         try:
                             self._data[i]._update(data[i])
                             continue
